@@ -719,6 +719,8 @@ def run_shards_isolated(w, binary, engine, prop, shards=NCPU, timeout=3600, stal
     continues without it. Returns (reports, violations, inconclusive)."""
     inconclusive = {}
 
+    sweep_fail_seen = {}
+
     def shard_job(i):
         skip = []
         viol = []
@@ -728,6 +730,17 @@ def run_shards_isolated(w, binary, engine, prop, shards=NCPU, timeout=3600, stal
             if rep is not None:
                 return rep, viol
             pr = crash['progress']
+            if engine == 'rt' and pr and pr[0] in (-3, -4):
+                # died / stalled inside the exhaustive Sov/Soz (-3) or EncodeVarint (-4) sweep: the sweeps are
+                # deterministic, a second failure at the same stage decides
+                sweep_fail = sweep_fail_seen.get(i, 0) + 1
+                sweep_fail_seen[i] = sweep_fail
+                if sweep_fail >= 2:
+                    viol.append(dict(prop=prop, key='rt/%s-in-sweep' % ('hang' if crash['timed_out'] else 'fatal'), type='runtime',
+                                     detail='the %s sweep %s twice at block %d (exit %s):\n%s' % ('Sov/Soz' if pr[0] == -3 else 'EncodeVarint', 'made no progress for %d s' % stall if crash['timed_out'] else 'died', pr[1], crash['rc'], crash['log'][:1500]),
+                                     replay=dict(engine=engine, type='runtime', seed=w.seed, index=-1)))
+                    return None, viol
+                continue
             if not pr or pr[0] == -1:
                 raise Broken('%s shard %d died without progress info (rc=%s)\n%s' % (engine, i, crash['rc'], crash['log']))
             # engines that shard by case see every type; rapidp shards by type
